@@ -77,7 +77,7 @@ fn bad(k: impl Into<String>, m: impl Into<String>) -> V {
 const REBOOT_MS: u64 = 1_800_000;
 
 /// Invariants over the single ordered observation log.
-fn oracle(log: &[Obs], finished_quiescent: bool) -> V {
+pub fn oracle(log: &[Obs], finished_quiescent: bool) -> V {
     // armed timers of the current wait episode: (op, fired?)
     #[derive(Debug)]
     struct Episode {
@@ -373,6 +373,12 @@ fn parts(tier: Tier) -> Vec<PartDef> {
             json!({"driver": "the C11 one-request harness: every operation of the flow blocks (timers included), a request is injected at every step, both select! orders", "deviation_bound": dd,
                    "oracle": "this property's timer oracle on the same executions"}),
             move |ctx| crate::props::c11::run_judged_by(ctx, tier, &|log| oracle(log, false)),
+        ),
+        PartDef::new(
+            "waits-after-all-handles-dropped",
+            Cfg::new("C12/waits-after-all-handles-dropped"),
+            json!({"driver": "the C11 handle-drop harness: all control handles dropped at every step 0..39 of the default schedule (every operation blocking), then two more timer-driven iterations", "oracle": "this property's timer oracle: the end of the control stream must not start a check"}),
+            move |ctx| crate::cross::judged_by(crate::props::c11::run_handles_dropped(ctx), &|log, _| oracle(log, false)),
         ),
         PartDef::new(
             "outer-wait",
